@@ -22,11 +22,11 @@ _KANI = [
     dict(crate="kprecompile", harness="c23::blake2_wrong_length", bounded=True, bound=_KB_BLAKE_LEN, timeout=300, mem_gb=10),
     dict(crate="kprecompile", harness="c23::blake2_len213_errors", bounded=True, bound=_KB_BLAKE_ERR, timeout=300, mem_gb=10),
 ]
-_QUICK_PAIR = {0, 191}
+_QUICK_PAIR = set()   # quick tier: the two blake2 harnesses only (each ./check recompiles the crate under Kani)
 _KANI += [dict(crate="kprecompile", harness=f"c23::bn128_pair_len{n}", bounded=True, bound=_KB_PAIR.format(n=n), timeout=300, mem_gb=10,
                **({} if n in _QUICK_PAIR else {"thorough_only": True})) for n in (0, 1, 191, 193, 385)]
 _KANI += [dict(crate="kprecompile", harness=f"c23::bn128_pair_len{n}_oog", bounded=True, bound=_KB_PAIR_OOG.format(n=n), timeout=300,
-               mem_gb=10, **({} if n == 192 else {"thorough_only": True})) for n in (192, 384)]
+               mem_gb=10, thorough_only=True) for n in (192, 384)]
 _KANI += [dict(crate="kprecompile", harness="c23::ecrecover_framing", bounded=True, bound=_KB_ECREC, timeout=1500, mem_gb=12,
                thorough_only=True)]
 
@@ -79,9 +79,9 @@ PROP = dict(
                "PrecompileWithAddress constants (closures coerced to fn pointers) -- i.e. that e.g. bn128::add::ISTANBUL passes "
                "ISTANBUL_ADD_GAS_COST to run_add is NOT verified (for the pairing entries it is exercised by the bounded Kani harnesses). "
                "BOUNDED Kani stand-ins on the real crate (never counted as proved): blake2::run length rule (lengths 0..=256) and its "
-               "OutOfGas / final-flag error paths on all 213-byte inputs; bn128 pairing gas + length rule through the real table entries "
-               "for concrete lengths 0, 1, 191, 193, 385 (symbolic gas) and 192, 384 (gas = cost - 1); thorough tier only: "
-               "ec_recover_run framing with ecrecover stubbed (about 5 min of CBMC). Success paths that build an output `Bytes` or "
+               "OutOfGas / final-flag error paths on all 213-byte inputs (quick tier); THOROUGH tier only: bn128 pairing gas + length "
+               "rule through the real table entries for concrete lengths 0, 1, 191, 193, 385 (symbolic gas) and 192, 384 (gas = "
+               "cost - 1), and ec_recover_run framing with ecrecover stubbed (about 5 min of CBMC). Success paths that build an output `Bytes` or "
                "reach curve / hash code are outside every harness. "
                "FINDINGS (known_findings.txt, finding obligations, never counted): calculate_iteration_count saturates at 2^64-1 BEFORE "
                "the gas functions multiply it with the multiplication complexity: for exp_len > 2^61+32 and a small base/modulus "
